@@ -656,3 +656,178 @@ func init() {
 			return obs
 		}})
 }
+
+// ARITY.quoted-data — C19: a list inside quoted data is not a call.  The
+// evaluator returns a quoted value without looking at its elements, so
+// '((car) (cdr 1 2)) and (quote (cons 1)) call nothing and may not be reported.
+// Structural half, on lint's side of the agreement: the builder of the shared
+// skip set marks, recursively, the lists below a quoted list and below the
+// operand of `quote`.
+func init() {
+	register(&Rule{ID: "ARITY.quoted-data", Floor: 2,
+		Doc: "the builder of lint's arity skip set (aritySkipNodes and the lint functions it calls) contains a marking descent — a self-recursive function that stores its node into the skip map and recurses over .Cells — that is entered (a) under an IsQuoted() test of the enclosing list and (b) under a test of the head against \"quote\": lists inside quoted data are excluded from every arity check, as the evaluator never calls them",
+		Run: func(c *Ctx) []Obligation {
+			const rid = "ARITY.quoted-data"
+			p := c.Pkg("lint")
+			skipFn := c.LookupPkgFunc("lint.aritySkipNodes")
+			if p == nil || skipFn == nil {
+				return []Obligation{anchorMissing(rid, "lint / aritySkipNodes")}
+			}
+			info := p.TypesInfo
+			decls := map[*types.Func]*ast.FuncDecl{}
+			for _, u := range c.Funcs(func(pp string) bool { return rel(pp) == "lint" }) {
+				if u.Decl != nil {
+					decls[u.Obj] = u.Decl
+				}
+			}
+			// reachable from aritySkipNodes within lint
+			reach := map[*types.Func]bool{skipFn: true}
+			work := []*types.Func{skipFn}
+			for len(work) > 0 {
+				f := work[len(work)-1]
+				work = work[:len(work)-1]
+				d := decls[f]
+				if d == nil {
+					continue
+				}
+				for _, ce := range callsIn(d.Body, true) {
+					if g := originOf(Callee(info, ce)); g != nil && decls[g] != nil && !reach[g] {
+						reach[g] = true
+						work = append(work, g)
+					}
+				}
+			}
+			// marking descents: self-recursive, store param-node into a map param, recurse over .Cells
+			marker := map[*types.Func]bool{}
+			for f := range reach {
+				d := decls[f]
+				if d == nil || d.Type.Params == nil {
+					continue
+				}
+				var mapParam, nodeParam types.Object
+				for _, fl := range d.Type.Params.List {
+					for _, nm := range fl.Names {
+						o := info.Defs[nm]
+						if _, ok := o.Type().Underlying().(*types.Map); ok {
+							mapParam = o
+						} else if isLValPtr(c, o.Type()) {
+							nodeParam = o
+						}
+					}
+				}
+				if mapParam == nil || nodeParam == nil {
+					continue
+				}
+				stores, recurses := false, false
+				ast.Inspect(d.Body, func(n ast.Node) bool {
+					switch x := n.(type) {
+					case *ast.AssignStmt:
+						for _, l := range x.Lhs {
+							if ix, ok := ast.Unparen(l).(*ast.IndexExpr); ok && identObj(info, ix.X) == mapParam && identObj(info, ix.Index) == nodeParam {
+								stores = true
+							}
+						}
+					case *ast.RangeStmt:
+						if se, ok := ast.Unparen(x.X).(*ast.SelectorExpr); ok && se.Sel.Name == "Cells" && identObj(info, se.X) == nodeParam {
+							for _, ce := range callsIn(x.Body, false) {
+								if originOf(Callee(info, ce)) == f {
+									recurses = true
+								}
+							}
+						}
+					}
+					return true
+				})
+				if stores && recurses {
+					marker[f] = true
+				}
+			}
+			// entries into a marker under the two tests
+			underQuoted, underQuoteHead := ast.Node(nil), ast.Node(nil)
+			var where *types.Func
+			for f := range reach {
+				d := decls[f]
+				if d == nil || marker[f] {
+					continue
+				}
+				var visit func(n ast.Node, q, h bool)
+				visit = func(n ast.Node, q, h bool) {
+					ast.Inspect(n, func(m ast.Node) bool {
+						switch x := m.(type) {
+						case *ast.IfStmt:
+							cq, ch := condMentions(info, x.Cond)
+							visit(x.Body, q || cq, h || ch)
+							if x.Else != nil {
+								visit(x.Else, q, h)
+							}
+							return false
+						case *ast.CaseClause:
+							cq, ch := false, false
+							for _, e := range x.List {
+								a, b := condMentions(info, e)
+								cq, ch = cq || a, ch || b
+							}
+							for _, st := range x.Body {
+								visit(st, q || cq, h || ch)
+							}
+							return false
+						case *ast.CallExpr:
+							if g := originOf(Callee(info, x)); g != nil && marker[g] {
+								if q && underQuoted == nil {
+									underQuoted, where = x, f
+								}
+								if h && underQuoteHead == nil {
+									underQuoteHead, where = x, f
+								}
+							}
+						}
+						return true
+					})
+				}
+				visit(d.Body, false, false)
+			}
+			u := FuncUnit{Obj: skipFn, Decl: decls[skipFn], Pkg: p}
+			_ = where
+			var obs []Obligation
+			if underQuoted != nil {
+				obs = append(obs, mkOb(c, rid, u, "lists below a quoted list", underQuoted, Proved, "marked by a recursive descent entered under an IsQuoted() test", true))
+			} else {
+				obs = append(obs, mkOb(c, rid, u, "lists below a quoted list", decls[skipFn], Violated, "nothing in the skip-set builder excludes the lists nested inside a quoted list: (set 'x '((car) (cdr 1 2))) evaluates fine (the elements are data) but is reported as two wrong-arity calls", true))
+			}
+			if underQuoteHead != nil {
+				obs = append(obs, mkOb(c, rid, u, "operand of (quote …)", underQuoteHead, Proved, "marked by a recursive descent entered under a test of the head against \"quote\"", true))
+			} else {
+				obs = append(obs, mkOb(c, rid, u, "operand of (quote …)", decls[skipFn], Violated, "nothing in the skip-set builder excludes the operand of (quote …): (quote (cons 1)) is data but is reported as a wrong-arity call of cons", true))
+			}
+			return obs
+		}})
+}
+
+// condMentions: does the condition, when true, imply an IsQuoted() call holds /
+// the head equals the string constant "quote"?  (A bare "quote" is a case of a
+// switch on the head.)
+func condMentions(info *types.Info, e ast.Expr) (quoted, quoteHead bool) {
+	if bl, ok := ast.Unparen(e).(*ast.BasicLit); ok && bl.Value == `"quote"` {
+		return false, true
+	}
+	for _, a := range impliedAtoms(e, true) {
+		if !a.Positive {
+			continue
+		}
+		switch x := ast.Unparen(a.E).(type) {
+		case *ast.CallExpr:
+			if se, ok := ast.Unparen(x.Fun).(*ast.SelectorExpr); ok && se.Sel.Name == "IsQuoted" {
+				quoted = true
+			}
+		case *ast.BinaryExpr:
+			if x.Op == token.EQL {
+				for _, side := range []ast.Expr{x.X, x.Y} {
+					if bl, ok := ast.Unparen(side).(*ast.BasicLit); ok && bl.Value == `"quote"` {
+						quoteHead = true
+					}
+				}
+			}
+		}
+	}
+	return
+}
